@@ -846,11 +846,20 @@ fn apply(root: &Path, a: &Act) {
         Act::Edit(2) => {
             let _ = std::fs::remove_file(proj.join("sub").join("b.sol"));
         }
+        Act::Edit(4) => {
+            // only optimisation / QA findings remain: no vulnerability part will be rendered
+            let _ = std::fs::remove_file(proj.join("a.sol"));
+            let _ = std::fs::remove_file(proj.join("c.sol"));
+            let _ = std::fs::remove_file(proj.join("q.sol"));
+            let _ = std::fs::remove_file(proj.join("sub").join("b.sol"));
+            std::fs::write(proj.join("g.sol"), "pragma solidity 0.8.19;\ncontract G {\n  uint256 private hidden;\n  function g(uint256 a, uint256 b) public returns (bool) {\n    return a >= b + 1;\n  }\n}\n").unwrap();
+        }
         Act::Edit(_) => {
             // make the tree quiet: no file has any finding
             let _ = std::fs::remove_file(proj.join("a.sol"));
             let _ = std::fs::remove_file(proj.join("c.sol"));
             let _ = std::fs::remove_file(proj.join("q.sol"));
+            let _ = std::fs::remove_file(proj.join("g.sol"));
             let _ = std::fs::remove_file(proj.join("sub").join("b.sol"));
             std::fs::write(proj.join("n.sol"), crate::fsx::SRC_NONE).unwrap();
         }
@@ -944,7 +953,7 @@ pub fn c18(tier: Tier) -> i32 {
     }
     // run from the parent directory through a configuration file that lives elsewhere
     acts.push(Act::Run(100));
-    for e in 0..4 {
+    for e in 0..5 {
         acts.push(Act::Edit(e));
     }
     for c in 0..CWDS.len() {
@@ -1106,7 +1115,7 @@ pub fn c18(tier: Tier) -> i32 {
     run.set("distinct_nontrivial", finals.len() as u64);
     run.set(
         "rule",
-        "states = (initial tree: contracts only / contracts next to other files; for histories of <= 2 runs also a tree whose report exceeds a megabyte, for histories of <= 2 actions also a tree with control and quoting characters in file names) x histories of <= 3 (quick) / 4 (thorough) actions ending in a run, over 21 actions: run the unhooked binary from a directory outside the tree / from the parent of the analysed directory / from the analysed directory itself / from a sub-directory of it / from the parent through a --toml file that lives in another directory and names the tree relatively; edit the tree (add, change, remove a .sol file, make the tree finding-free); plant a left-over solstat_report.md (unrelated bytes, 1 MB, a longer stale report) in any of the three working directories. After every run: byte snapshot of the whole scratch root before/after (only <cwd>/solstat_report.md may differ or appear), the report exists, and it is byte-identical to the report of a run on a fresh copy of the current tree from a clean working directory; non-trivial = distinct final snapshots",
+        "states = (initial tree: contracts only / contracts next to other files; for histories of <= 2 runs also a tree whose report exceeds a megabyte, for histories of <= 2 actions also a tree with control and quoting characters in file names) x histories of <= 3 (quick) / 4 (thorough) actions ending in a run, over 22 actions: run the unhooked binary from a directory outside the tree / from the parent of the analysed directory / from the analysed directory itself / from a sub-directory of it / from the parent through a --toml file that lives in another directory and names the tree relatively; edit the tree (add, change, remove a .sol file, make the tree finding-free, leave only gas findings); plant a left-over solstat_report.md (unrelated bytes, 1 MB, a longer stale report) in any of the three working directories. After every run: byte snapshot of the whole scratch root before/after (only <cwd>/solstat_report.md may differ or appear), the report exists, and it is byte-identical to the report of a run on a fresh copy of the current tree from a clean working directory; non-trivial = distinct final snapshots",
     );
     run.set("bound_completed", format!("history length <= {}", depth));
     run.set("samples", json!(histories.iter().step_by(histories.len() / 3 + 1).take(3).map(|h| format!("{:?}", h)).collect::<Vec<_>>()));
